@@ -162,6 +162,7 @@ for d in sorted(glob.glob('/verif/seeded/*')):
     verdict='caught' if m.get('detected') else 'MISSED (exit %s)'%m.get('check_exit')
     if m.get('applies_to_head') is False: verdict='superseded (see note)'
     if m.get('confirmed') is False: verdict='not a regression on HEAD (see note)'
+    if m.get('undecided'): verdict='not decided by the property (see note)'
     if m.get('detected') and m.get('detected_by') and m.get('detected_by')!=m.get('breaks_property'): verdict='caught by the %s check'%m['detected_by']
     out.append('| %s | %s | %s | %s | %s |'%(m.get('id',os.path.basename(d)),m.get('breaks_property','?'),m.get('needs_to_manifest',''),
         verdict, '; '.join(m.get('violations_reported',[]))[:160]))
@@ -293,6 +294,38 @@ C08g (one judged update per gateway: in a quarter of the sampled runs an accepte
 C18g (transactions entered below the SPOE message handler: C18S and C18R send half of
 their runs through `routing.Handler`, one call per frame; the race detector reports the shared
 variable, C18S the swapped verdicts).
+
+Eighth wave (suffix h), 16 changes: 7 were caught as delivered (C06h, C08h, C09h, C10h,
+C17h, C18h, C20h), 8 were missed at first, 1 is not decided by the property. What was changed:
+C19h (the scripted resolver only ever failed with "name not found": `herror`, a resolver
+timeout and "too many open files" added),
+C05h (Filter processors only had a header parameter: URL patterns that are no regular
+expressions, endpoint, method, body and status-range values the loader does not look into),
+C15h (durations were at least 1 ms: a third of the records of half of the runs take 0 ms),
+C01h (requests carried the grouping header or nothing: unrelated headers added, among them
+one whose name is the engine's word for "no group", `default`),
+C12h (one size limit per run: in half of the size runs the limit changes between stores;
+an entry that was stored must have fitted, together with the entries of other keys alive
+then, into the limit in force at its store),
+C02h (every transaction had an id of its own: ids come from the client, a third of the runs
+give the id of a transaction that is over - ended, or abandoned and collected - to a new one),
+C04h (flow references were not generated by C04 at all: a quarter of the runs now load a flow
+whose request path begins at the end of another flow and whose response path hands over to
+it, judged against the composite graph; in a third of those the end of the referenced flow
+is referred to twice and both continuations must run),
+C11h (a lock attempt that does not wait never met a held lock, because the simulator never
+parks a task that holds one: the instrumenter turns `TryLock`/`TryRLock` into a fault point
+and C11/C11H let a third of such attempts fail, as under contention by a pinning transaction,
+a reload or a vacuum pass; the unchanged accessor has no such attempt, the handler's own
+`TryLock` is left alone in C08).
+C03h makes `host/a/*` apply to the bare stem `host/a`. The property does not say whether a
+trailing wildcard takes the empty suffix, and the engine's two tree walks disagree on it
+(`Lookup`, used for policies and quotas, accepts the stem; `Traversal`, used for flows, accepts
+it only below the host): the C03 reference leaves both outcomes open, so this change is
+recorded as not decided rather than as caught or missed.
+While reading for C18h the sub-agent noticed that an earlier repair of this effort
+(`5a7a63d`) had introduced a lock-order inversion between `MapVacuum.vacuum` and
+`concurrency.Limiter.TryTakeSlot`; corrected by `219b1de` (section 11.1).
 
 ### 12.1 Reverting the repairs
 
